@@ -85,6 +85,9 @@ func (bucket *Bucket) _closeSqliteDB() {
 
 // Closes a bucket and deletes its directory and files (unless it's in-memory.)
 func (bucket *Bucket) CloseAndDelete(ctx context.Context) (err error) {
+	// Stop the expiry timer first, without holding the bucket mutex: a running expiration holds the
+	// expiry manager's mutex and needs the bucket mutex to delete the expired docs.
+	bucket.expManager.stop()
 	bucket.mutex.Lock()
 	defer bucket.mutex.Unlock()
 	bucket.closed = true // so that a later Close() of this handle is a no-op
